@@ -120,7 +120,7 @@ fn run(scripts: &str, trace: &str, opts: &Opts) -> Res<()> {
                     drop(wal.take());
                     match Wal::new(&dir) {
                         Ok(w) => wal = Some(w),
-                        Err(e) => return Err(format!("Wal::new failed on reopen: {e}").into()),
+                        Err(e) => res = json!(format!("openfail:{}", class(&e))),
                     }
                 }
                 "Truncate" => {
@@ -132,30 +132,44 @@ fn run(scripts: &str, trace: &str, opts: &Opts) -> Res<()> {
                         std::fs::OpenOptions::new().write(true).open(p)?.set_len(*sz)?;
                     }
                     let b = gi(step, "b") as u64;
-                    let (_, p, sz) = before.last().expect("Truncate needs a file").clone();
-                    assert!(b <= sz, "script truncates at {b} beyond the file size {sz}");
-                    std::fs::OpenOptions::new().write(true).open(&p)?.set_len(b)?;
+                    // the offsets of a script are those of the model's directory; if the real directory differs
+                    // (the trace has been rejected before this step then) the cut is recorded as not applicable
+                    match before.last() {
+                        Some((_, p, sz)) if b <= *sz => {
+                            std::fs::OpenOptions::new().write(true).open(p)?.set_len(b)?;
+                        }
+                        _ => res = json!("inapplicable"),
+                    }
                     match Wal::new(&dir) {
                         Ok(w) => wal = Some(w),
-                        Err(e) => return Err(format!("Wal::new failed after crash: {e}").into()),
+                        Err(e) => res = json!(format!("openfail:{}", class(&e))),
                     }
                 }
                 "Flip" => {
                     let fl = wal_files(&dir);
-                    let (_, p, sz) = fl[gi(step, "f") as usize - 1].clone();
                     let b = gi(step, "b") as u64;
-                    assert!(b < sz, "script flips byte {b} beyond the file size {sz}");
-                    let mut bytes = std::fs::read(&p)?;
-                    bytes[b as usize] ^= gi(step, "m") as u8;
-                    // in-place overwrite (same length); the open O_APPEND handle is unaffected
-                    use std::io::{Seek, SeekFrom, Write};
-                    let mut f = std::fs::OpenOptions::new().write(true).open(&p)?;
-                    f.seek(SeekFrom::Start(b))?;
-                    f.write_all(&bytes[b as usize..b as usize + 1])?;
+                    match fl.get(gi(step, "f") as usize - 1) {
+                        Some((_, p, sz)) if b < *sz => {
+                            let mut bytes = std::fs::read(p)?;
+                            bytes[b as usize] ^= gi(step, "m") as u8;
+                            // in-place overwrite (same length); the open O_APPEND handle is unaffected
+                            use std::io::{Seek, SeekFrom, Write};
+                            let mut f = std::fs::OpenOptions::new().write(true).open(p)?;
+                            f.seek(SeekFrom::Start(b))?;
+                            f.write_all(&bytes[b as usize..b as usize + 1])?;
+                        }
+                        _ => res = json!("inapplicable"),
+                    }
                 }
                 _ => panic!("unknown op {op}"),
             }
-            let obs = observe(wal.as_ref().unwrap(), &dir, maxfrom);
+            // a log that cannot be opened is an observation too (never explained by the specification);
+            // the rest of the script cannot run
+            let Some(w) = wal.as_ref() else {
+                tr.emit(event_from(step, json!({ "res": res, "obs": {"seq": 0, "files": [], "replays": []} })))?;
+                break;
+            };
+            let obs = observe(w, &dir, maxfrom);
             tr.emit(event_from(step, json!({ "res": res, "obs": obs })))?;
         }
     }
